@@ -27,6 +27,11 @@ def r4(ctx):
 
 
 RULES = {
+    "C06.R10": lambda ctx: __import__("rules.decoderrules", fromlist=["x"]).hermes_regular_part(ctx, "C06.R10"),
+    # what was validated is what is stored (the arrays the indices were checked against reach the map unshortened), and
+    # the mappings are validated at all (kind dispatch cannot route a regular map around decode_regular)
+    "C06.R8": lambda ctx: __import__("rules.decoderrules", fromlist=["x"]).handover(ctx, "C06.R8"),
+    "C06.R9": lambda ctx: __import__("rules.decoderrules", fromlist=["x"]).dispatch(ctx, "C06.R9"),
     "C06.R7": lambda ctx: __import__("rules.decoderrules", fromlist=["x"]).range_reader(ctx, "C06.R7"),
     "C06.R6": lambda ctx: __import__("rules.decoderrules", fromlist=["x"]).section_errors(ctx, "C06.R6"),
     "C06.RL": lambda ctx: __import__("rules.common", fromlist=["x"]).loop_exit_rule(ctx, "C06.RL", {'decoder::decode_regular': 0, 'vlq::parse_vlq_segment_into': 0}),
